@@ -274,3 +274,21 @@ PROPS["C09"] = dict(
     trusted_base=BASE + ["QuicConnection._discard_epoch, _find_network_path, _idle_timeout, QuicPacketRecovery.get_loss_detection_time: frame-only summaries (write nothing relevant to the close state machine), by inspection", "qlog sinks (log_event, end_trace)"],
     assumptions=["block contracts: the stated entry conditions (a network path exists; a close deadline exists when handle_timer is called; logger plumbing) are assumed at block entry", A1],
 )
+
+
+REC = "quic/recovery.py::QuicPacketRecovery."
+PROPS["C01"] = dict(
+    functions=[
+        RX + "__init__", RX + "handle_reset", (RX + "handle_frame", 12), RX + "_pull_data",
+        TX + "__init__", (TX + "get_frame", 6), TX + "write", TX + "reset", (TX + "on_data_delivery", 4), TX + "next_offset",
+        RS + "__init__", RS + "add", RS + "shift", RS + "__getitem__", RS + "__len__",
+        CONN0 + "_write_stream_frame", CONN0 + "_write_application@stream_credit", (CONN0 + "_handle_stream_frame", 6),
+        (REC + "on_ack_received", 6), REC + "_on_packets_lost", REC + "_detect_loss", REC + "discard_space",
+    ],
+    bounded=["stream-receiver-model", "stream-sender-model", "rangeset-smallscope"],
+    scope="SAFETY SENTENCE, per function, for all inputs and call histories: (receive half) the bytes handed to the application by handle_frame are exactly the reference model's bytes (offset -> byte map of the accepted frames) for the maximal contiguous run starting at the previous delivery position - in order, without gap or repeat (the delivery position only moves forward and each call delivers [old position, new position)); the end marker is reported exactly when the delivery position reaches the final size (until a reset is accepted); (send half) every frame cut by get_frame carries exactly the written bytes for its offsets, FIN exactly on the frame that ends at the final offset; on_data_delivery(LOST) makes exactly the lost range pending again and re-offers a lost FIN, on_data_delivery(ACKED) trims the buffer to the first unacknowledged byte and completes exactly when all bytes and the FIN are acknowledged; (connection) a frame taken out of a send half is always written into the packet (no QuicPacketBuilderStop between get_frame and start_frame - a FIN-only frame cannot be lost), blocked streams put nothing on the wire; (recovery) every packet removed from the sent map is removed exactly once and its delivery handlers are each invoked once, ACKED iff its number is in the acknowledged set and LOST otherwise, a lost packet is removed whether or not it is in flight - so on_data_delivery's precondition 'each in-flight frame is reported once' is what recovery provides",
+    lemma="Composition (paper argument over the contracts, not machine-checked): the sender contract makes every emitted frame consistent with the written byte string W (data = W[offset:offset+len], fin => end = |W|); the channel only drops, delays, duplicates, reorders authentic packets (AEAD assumption of C02), so every frame the receiver handles was emitted; the receiver model gM is then a restriction of W, delivered bytes are gM on [0, position) = W[0:position), in order, gap-free, repeat-free; end-of-stream only at position = final size = |W|",
+    not_decided="the wire encoding / decoding of STREAM frames (_write_stream_frame's pushes, _handle_stream_frame's pulls: only lengths and limits are under contract), the registration of on_data_delivery with the right (start, stop, fin) arguments in QuicPacketBuilder.start_frame (handler arguments are not modelled), 'end-of-stream at most once' across duplicated datagrams at connection level (the receive half repeats its end marker for a repeated FIN frame), CRYPTO stream delivery, sentence 2 (liveness: every written byte is eventually delivered; no spurious protocol-error close) beyond the per-step ingredients above, key updates and address rebinding (enter only through the channel assumption)",
+    trusted_base=BASE + [SUBTRACT, "contracts/buffer_model.py, contracts/quic_builder.py (callee contracts proved under C17 / C13)"],
+    assumptions=[SUBTRACT, A2, "recovery-layer caller preconditions (fresh packet numbers, well-formed spaces) and opaque delivery callbacks as stated in the C08 evidence"],
+)
